@@ -21,7 +21,9 @@
    * flush_call x o      : o is flush(), or close() when x is no longer Active (then close = flush).
    * on_wire base g x w  : slot empty, out_buffer empty, wire = encoding of all queued frames, and a
                            frame f with strip f = g is among those queued after `base`.
-   * displacing o res    : o is write(Pong), write(Close)/close(), or a read() that returned Ping/Close. *)
+   * displacing o res    : o is write(Pong), write(Close)/close(), or a read() that returned Ping/Close.
+   * push_call o         : o is flush(), close() or read().
+   * read_pushes x       : x_additional x <> None \/ x_unflushed x = true, i.e. read() begins with flush(). *)
 From TungModel Require Import Base Coding Mask Header Frame Utf8 World Message Codec Protocol.
 From TungModel.proofs Require Import PendingP.
 
@@ -143,9 +145,8 @@ Proof. exact flush_call_stays. Qed.
 (* flush(), close() and read() in any combination, on a connection that is neither Active nor
    Terminated (always the case while a Close frame is pending on a live transport): two calls
    deliver, provided a read() used as FIRST call finds the frame parked in the slot or the
-   unflushed flag set - or else the transport ended during the first call.
-   push_call o : o is OpFlush, OpClose _ or OpRead.
-   read_pushes x : x_additional x <> None \/ x_unflushed x = true. *)
+   unflushed flag set - or else the transport ended during the first call.  (The proviso is
+   discharged by C13_read_pushes_after_close / _after_reply below.) *)
 Theorem C13_eventually_sent_any_call :
   forall x w base g o1 o2 res1 x1 w1 res2 x2 w2,
     reachable x w -> x_state x <> Active -> x_state x <> Terminated ->
@@ -155,23 +156,78 @@ Theorem C13_eventually_sent_any_call :
     on_wire base g x2 w2 \/ exists evs, w_log w1 = w_log w ++ evs /\ transport_ended evs.
 Proof. exact eventually_sent_calls. Qed.
 
-(* REFUTED for read() without that proviso.  Server, default configuration, transport blocked:
+(* ---- read() alone drives the closing handshake ----------------------------------------------
+   (formerly C13_eventually_sent_read_refuted: before fix 50d46f1 a blocked close() left the Close
+   frame in out_buffer with unflushed_additional = false and later read() calls never flushed it.
+   _write now sets the flag whenever it moves the slot into the write buffer, flush() clears it
+   only after writing everything, so the statement is TRUE and proved.)
+
+   After close(code) / write(Close(code)) on an Active connection, through ANY later history of
+   calls and ANY transport behaviour: the connection is not Active, and read() is a pushing call
+   (slot occupied or flag set) - or the Close frame is already entirely on the wire. *)
+Theorem C13_read_pushes_after_close :
+  forall x w o code res x1 w1,
+    reachable x w -> x_state x = Active -> close_op o code -> run_op x o w = (res, x1, w1) ->
+    forall ops rs x2 w2, run_ops x1 ops w1 = (rs, x2, w2) ->
+      x_state x2 <> Active /\
+      (read_pushes x2 \/ on_wire (queued (w_log w)) (frame_close code) x2 w2).
+Proof. exact close_read_pushes. Qed.
+
+(* the same for the Close reply parked by a read() that returned Close(c) *)
+Theorem C13_read_pushes_after_reply :
+  forall x w c x1 w1,
+    reachable x w -> x_state x = Active ->
+    run_op x OpRead w = (ResMsg (ROk (MClose c)), x1, w1) ->
+    forall ops rs x2 w2, run_ops x1 ops w1 = (rs, x2, w2) ->
+      x_state x2 <> Active /\
+      (read_pushes x2 \/ on_wire (queued (w_log w1)) (frame_close c) x2 w2).
+Proof. exact reply_read_pushes. Qed.
+
+(* close() on an Active connection, then any history (e.g. calls that block), then - once the
+   transport accepts - two calls among flush()/close()/read(), read() ALONE included, whatever
+   they return: the Close frame is entirely on the wire, slot and buffer empty - or else the
+   transport ended during the first of the two calls. *)
+Theorem C13_eventually_sent_read :
+  forall x w o code res x1 w1 ops rs x2 w2 o1 o2 res3 x3 w3 res4 x4 w4,
+    reachable x w -> x_state x = Active -> close_op o code -> run_op x o w = (res, x1, w1) ->
+    run_ops x1 ops w1 = (rs, x2, w2) ->
+    x_state x2 <> Terminated -> transport_accepts x2 w2 ->
+    push_call o1 -> push_call o2 ->
+    run_op x2 o1 w2 = (res3, x3, w3) -> run_op x3 o2 w3 = (res4, x4, w4) ->
+    on_wire (queued (w_log w)) (frame_close code) x4 w4 \/
+    exists evs, w_log w3 = w_log w2 ++ evs /\ transport_ended evs.
+Proof. exact close_eventually_sent_any_call. Qed.
+
+(* non-vacuity, and the former counterexample: Server, default configuration, transport blocked:
    close(None) queues the Close frame into the write buffer and returns WouldBlock (slot empty,
-   unflushed_additional = false).  The transport then accepts everything, the user only calls
-   read(): three read() calls (each returns WouldBlock from the read side) write nothing - the
-   Close frame 88 00 stays in out_buffer, the wire stays empty, the transport has not ended.
+   unflushed_additional = true).  The transport then accepts, the user only calls read(): the
+   first read() (it returns WouldBlock from the read side) puts the Close frame 88 00 on the wire.
    (rr_state = run_ops rr_ctx [OpClose None] rr_world, see proofs/PendingP.v.) *)
-Theorem C13_eventually_sent_read_refuted :
+Example C13_ex_read_drives_close :
   let '(rs, x, w) := rr_state in
   rs = [(ResUnit (RErr (EIo WouldBlock)), 2)] /\
   reachable x w /\ x_state x = ClosedByUs /\
   pend [] (frame_close None) x (w_log w) /\ c_out (x_codec x) = [136; 0] /\ x_additional x = None /\
+  x_unflushed x = true /\ read_pushes x /\
   transport_accepts x w /\ Forall (generous 1000) (w_wrs w) /\
-  let '(rs2, x2, w2) := run_ops x [OpRead; OpRead; OpRead] w in
-  wire (w_log w2) = [] /\ c_out (x_codec x2) = [136; 0] /\
-  ~ transport_ended (skipn (length (w_log w)) (w_log w2)) /\
-  ~ on_wire [] (frame_close None) x2 w2.
-Proof. exact eventually_sent_read_refuted. Qed.
+  let '(rs2, x2, w2) := run_ops x [OpRead] w in
+  map fst rs2 = [ResMsg (RErr (EIo WouldBlock))] /\
+  wire (w_log w2) = [136; 0] /\ c_out (x_codec x2) = [] /\
+  on_wire [] (frame_close None) x2 w2.
+Proof. exact eventually_sent_read_example. Qed.
+
+(* hypotheses of C13_eventually_sent_read on that history (x = fresh server, o = close(None),
+   no intermediate calls, then read(); read()) *)
+Example C13_ex_read_hyps :
+  reachable rr_ctx rr_world /\ x_state rr_ctx = Active /\ close_op (OpClose None) None /\
+  let '(res, x1, w1) := run_op rr_ctx (OpClose None) rr_world in
+  x_state x1 <> Terminated /\ transport_accepts x1 w1 /\ push_call OpRead.
+Proof.
+  split; [apply (reachable_new Server [] rr_cfg); reflexivity|]. split; [reflexivity|].
+  split; [now left|]. vm_compute run_op. cbv iota beta.
+  split; [discriminate|]. split; [|right; now right].
+  unfold transport_accepts. cbn [x_additional]. eexists. vm_compute. reflexivity.
+Qed.
 
 (* ---- C13_no_early_close --------------------------------------------------------------------
    In ANY state (reachable or not), a call that returns ConnectionClosed leaves the slot and the
@@ -295,7 +351,9 @@ Print Assumptions C13_pending_step.
 Print Assumptions C13_eventually_sent.
 Print Assumptions C13_eventually_sent_one_call.
 Print Assumptions C13_eventually_sent_any_call.
-Print Assumptions C13_eventually_sent_read_refuted.
+Print Assumptions C13_read_pushes_after_close.
+Print Assumptions C13_read_pushes_after_reply.
+Print Assumptions C13_eventually_sent_read.
 Print Assumptions C13_accepts_whole_writes.
 Print Assumptions C13_accepts_partial_writes.
 Print Assumptions C13_close_is_flush_call.
